@@ -31,7 +31,7 @@ func checkC20(ctx *Ctx) {
 		"after every step the dump of EVERY database must equal the reference (so a command with database i selected changed nothing in database j), the volatile-key index and eviction heaps of the other databases must be unchanged, and SELECT must affect only the issuing connection. " +
 		"Persistence legs: multi-database datasets written by TCP and embedded callers must come back in the same databases after an AOF restart and a snapshot restore. distinct_nontrivial = distinct (caller kind, database, command/options, outcome) classes")
 	ctx.Assume("SWAPDB is checked for the TCP connections that exist when it is issued (SugarDB documents that the embedded caller is not swapped)", "replication leg: see C07")
-	if ctx.Fork(8, "", 15*time.Minute) {
+	if ctx.Fork(8, "", ctx.Watchdog()) {
 		return
 	}
 	quietLogs()
